@@ -69,6 +69,80 @@ theorem removeLiq_spec {s s' : St} {w x rb ro : Nat} {o : Out}
         | (dsimp only [setW, burnLocked]; omega)
         | simp
 
+/-- redeeming a wrapped farm token whose proxy-farming token is a locked token -/
+theorem takeF_locked_spec {s s1 : St} {f x : Nat} {mode : Mode} {t : Taken} {r : WFarm}
+    (h : takeF s f x mode = some (s1, t)) (hm : mode ≠ .keep) (hr : s.wf[f]? = some r)
+    (hk : r.kind = .locked) :
+    t.r = r ∧ part r.pa r.fa x = some t.p ∧ 0 < x ∧ x ≤ r.circ ∧ t.k = r.pn ∧ t.q = t.p ∧
+    s1.lk r.pn + t.p = s.lk r.pn ∧
+    s1.minted = s.minted ∧ s1.burnB = s.burnB ∧ s1.burnL = s.burnL ∧ s1.eDed = s.eDed ∧
+    s1.unl = s.unl ∧ s1.now = s.now ∧ s1.lp = s.lp ∧ s1.wl = s.wl := by
+  simp only [takeF, Option.bind_eq_bind, Option.bind_eq_some_iff, Option.pure_def,
+    Option.some.injEq, Prod.mk.injEq] at h
+  obtain ⟨⟨s0, r0, p⟩, h0, ⟨s2, k, q⟩, hs, rfl, rfl⟩ := h
+  dsimp only at hs
+  obtain ⟨hr0, hx, hc, hp, _, _, _, rfl⟩ := takeF0_spec h0
+  rw [hr] at hr0
+  simp only [Option.some.injEq] at hr0
+  subst hr0
+  obtain ⟨hle, rfl, rfl, rfl⟩ := settle_locked hm hk hs
+  refine ⟨rfl, hp, hx, hc, rfl, rfl, ?_, rfl, rfl, rfl, rfl, rfl, rfl, rfl, rfl⟩
+  show (if r.pn = r.pn then s.lk r.pn - q else s.lk r.pn) + q = s.lk r.pn
+  rw [if_pos rfl]
+  have : q ≤ s.lk r.pn := hle
+  omega
+
+/-- `exitFarmProxy` of a position entered with locked tokens: what comes back, what is burned -/
+theorem exitFarm_locked_spec {s s' : St} {farm f x farming : Nat} {rew : Option LkTok} {o : Out}
+    {r : WFarm} (h : exitFarm s farm f x farming rew = some (s', o)) (hr : s.wf[f]? = some r)
+    (hk : r.kind = .locked) :
+    ∃ p, part r.pa r.fa x = some p ∧ farming ≤ x ∧ x - farming ≤ p ∧
+      o.locked = (r.pn, p - (x - farming)) ∧ o.burned.2 = x - farming ∧
+      (o.burned.2 ≠ 0 → o.burned.1 = r.pn) ∧
+      o.eDed = ((x - farming : Nat) : Int) * ((s.unl r.pn : Int) - (s.now : Int)) ∧
+      o.base = 0 ∧ o.wOut = (0, 0) ∧
+      s'.minted = s.minted ∧ s'.burnB = s.burnB + (if farmIsBase farm = true then farming else 0) ∧
+      s'.burnL = s.burnL + (x - farming) ∧ s'.eDed = s.eDed + o.eDed ∧
+      s'.lk r.pn + p = s.lk r.pn := by
+  simp only [exitFarm, Option.bind_eq_bind, Option.bind_eq_some_iff, req_eq_some,
+    Option.pure_def] at h
+  obtain ⟨_, hfx, ⟨s1, t⟩, h1, h⟩ := h
+  have hm : (if x = farming then Mode.out else Mode.dissolve true) ≠ .keep := by
+    split <;> simp
+  obtain ⟨rfl, hp, _, _, _, _, hlk, hmi, hbb, hbl, hed, hunl, hnow, _, _⟩ :=
+    takeF_locked_spec h1 hm hr hk
+  dsimp only at h
+  refine ⟨t.p, hp, hfx, ?_⟩
+  have key : ∀ (sa : St), sa.lk = s1.lk → (learnOpt sa rew).lk t.r.pn + t.p = s.lk t.r.pn := by
+    intro sa hsa; cases rew <;> simp only [learnOpt, learn, hsa] <;> exact hlk
+  split at h
+  · rename_i hxf
+    rw [hk] at h
+    simp only [Option.some.injEq, Prod.mk.injEq] at h
+    obtain ⟨rfl, rfl⟩ := h
+    have e0 : x - farming = 0 := by omega
+    refine ⟨by omega, ?_, e0.symm, fun h => absurd rfl h, ?_, rfl, rfl, ?_, ?_, ?_, ?_, ?_⟩
+    · rw [e0]; rfl
+    · rw [e0]; simp
+    · cases rew <;> (simp only [learnOpt, learn]; split <;> exact hmi)
+    · cases rew <;> (simp only [learnOpt, learn]; split <;> simp [hbb])
+    · rw [e0]; cases rew <;> (simp only [learnOpt, learn]; split <;> simp [hbl])
+    · cases rew <;> (simp only [learnOpt, learn]; split <;> simp [hed])
+    · apply key; split <;> rfl
+  · rename_i hxf
+    simp only [Option.bind_eq_bind, Option.bind_eq_some_iff, sub?_eq_some] at h
+    obtain ⟨remaining, ⟨hpen, rfl⟩, h⟩ := h
+    rw [hk] at h
+    simp only [Option.some.injEq, Prod.mk.injEq] at h
+    obtain ⟨rfl, rfl⟩ := h
+    refine ⟨hpen, rfl, rfl, fun _ => rfl, ?_, rfl, rfl, ?_, ?_, ?_, ?_, ?_⟩
+    · simp only [energyOf]; split <;> simp [hunl, hnow]
+    · cases rew <;> (simp only [learnOpt, learn, burnLocked]; split <;> exact hmi)
+    · cases rew <;> (simp only [learnOpt, learn, burnLocked]; split <;> simp [hbb])
+    · cases rew <;> (simp only [learnOpt, learn, burnLocked]; split <;> simp [hbl])
+    · cases rew <;> (simp only [learnOpt, learn, burnLocked, energyOf]; split <;> simp [hed, hunl, hnow])
+    · apply key; simp only [burnLocked]; split <;> rfl
+
 /-- the base asset never leaves through any operation but `removeLiquidityProxy` -/
 theorem base_zero_of_ne_removeLiq {s s' : St} {op : Op} {o : Out} (h : step s op = some (s', o))
     (hne : ∀ w x rb ro, op ≠ .removeLiq w x rb ro) : o.base = 0 := by
